@@ -12,7 +12,8 @@ package cluster
 //verif:stub github.com/tucats/ego/internal/cli/settings.GetInt = c29GetInt
 //verif:bound origin step: an arbitrary list of 0..4 active peers, each send succeeding or failing arbitrarily; receive step: an arbitrary flush request (cache id one of three caches, arbitrary hop count, arbitrary sender), valid or invalid cluster token, decodable or not
 //verif:assume the two per-node step lemmas compose: a purge at one node sends exactly one flush per active peer (origin step) and a node that receives a flush never sends one (receive step), so the total number of messages per purge is the number of peers, whatever the cluster size
-//verif:outside delivery, delay and loss of the real HTTP messages; the membership table in SQL; the JSON wire format
+//verif:note the origin step has a native twin (real SQLite membership table, real HTTP peers) used for replay
+//verif:outside delay and loss of the real HTTP messages; the membership table in SQL; the JSON wire format
 
 import (
 	"database/sql"
@@ -76,7 +77,8 @@ func (w *c29Writer) Write(b []byte) (int, error) { return len(b), nil }
 // VerifC29_originSendsOncePerPeer
 func VerifC29_originSendsOncePerPeer() {
 	if !sym.Symbolic() {
-		return // the step lemmas are about stubbed transport; there is no native twin
+		c29NativeOrigin() // c29_twin.go: real membership table, real HTTP peers
+		return
 	}
 	ClusterName, systemDB = "c", new(sql.DB)
 	n := sym.Choice("peers", 5)
